@@ -324,7 +324,7 @@ int main(void)
 		char *save = NULL, *t;
 		for (t = strtok_r(line, " \n", &save); t && ntok < MAXTOK; t = strtok_r(NULL, " \n", &save)) tok[ntok++] = t;
 		if (ntok == 0) { puts("bad-op"); continue; }
-		verif_cpu_watchdog(60);	/* CPU seconds per scenario; the largest ones need well under one */
+		verif_cpu_watchdog(H_BUFSZ < 65536 ? 1 : 60);	/* CPU seconds per scenario; they need milliseconds (small buffers) / well under a second */
 		if (strcmp(tok[0], "ostream") == 0) do_ostream(tok, ntok);
 		else if (strcmp(tok[0], "istream") == 0) do_istream(tok, ntok);
 		else puts("bad-op");
